@@ -504,6 +504,8 @@ class Effects:
                         out.add((f"USER.call({tg[1].split(':')[1]})", here(n)))
                     if isinstance(tg, tuple) and tg[0] == "attrcall":
                         out.add((f"STORED.call({tg[1]})", here(n)))
+            elif isinstance(n, (ast.Raise, ast.Assert)):
+                out.add(("RAISE", here(n)))
             elif isinstance(n, ast.For):
                 rs = self.expr_roles(n.iter, roles, env)
                 for R in sorted(rs):
